@@ -73,7 +73,7 @@ def main():
                         "(CPython 3.12.1 reports byte-derived columns there)",
                         "z3 lemmas quantify over all strings (no length bound) but only over the sub-patterns named in the evidence"]
     chk.stubs += ["tokenize._compile -> symbolic regex matcher"]
-    collect_functions(chk, lambda: list(repo().real.tokenize.generate_tokens("if a:\n  x = 0x1F + '''c\nd''' # c\n")))
+    collect_functions(chk, lambda: oracles.run_tokens(repo().real, "if a:\n  x = 0x1F + '''c\nd''' # c\n"))
     regex_lemmas(chk)
     o = ("c09",)
     for l in range(1, L + 1):
